@@ -12,7 +12,7 @@
 #define CAP 9000
 #endif
 char* gp_line; char** gpp_pos; const char* gp_arg;
-int g_len, g_off, g_k, g_calls, g_tl, g_num, g_added, g_add_same, g_cadded, v_nret;
+int g_len, g_off, g_k, g_calls, g_tl, g_num, g_added, g_add_same, g_cadded, v_nret, g_scan_end;
 char v_k, v_arg_k, v_arg_end, v_arg_0, v_c0, v_c1, v_c2, v_c3; double v_ret;
 char nondet_char(void);
 static void havoc_ghosts(void)
@@ -40,7 +40,7 @@ static void havoc_ghosts(void)
 #define LINE_OK(line, n, off) (0 < (n) && (n) <= CAP && __CPROVER_is_fresh(line, n) && 0 <= g_len && g_len < (n) && (line)[g_len] == 0 \
                                && 0 <= (off) && (off) <= g_len && g_off == (off))
 /* the ghost index ranges over the text after pos */
-#define GHOST_K(line, off) (0 <= g_k && (g_k < g_len - (off) ? v_k == (line)[(off) + g_k] : 1))
+#define GHOST_K(line, off) (0 <= g_k && g_k <= g_len && (g_k < g_len - (off) ==> v_k == (line)[(off) + g_k]))
 #define FRESH_OUT(p) __CPROVER_is_fresh(p, sizeof(int))
 /* v_c0..v_c3 are the (up to) four characters at pos, as far as they lie in front of or on the terminator.  Postconditions speak
  * about these scalars: conditional expressions full of dereferences make the instrumented contract explode, and the line is
@@ -212,16 +212,17 @@ int w_hasRowName(char* line, int n, int off, int have_names, int* off_out)
 __CPROVER_requires(LINE_OK(line, n, off) && FRESH_OUT(off_out))
 __CPROVER_requires(GHOST_K(line, off))
 __CPROVER_requires(g_added == 0)
-__CPROVER_assigns(gp_line, gpp_pos, *off_out, g_added, g_add_same, v_arg_0)
+__CPROVER_assigns(gp_line, gpp_pos, *off_out, g_added, g_add_same, v_arg_0, g_scan_end)
 __CPROVER_ensures(POS_IN_LINE(off, *off_out))
-/* no colon: false, pos untouched */
-__CPROVER_ensures((*off_out == off && g_k < g_len - off) ==> v_k != ':')
+/* pos untouched: false is returned, and the text up to its terminator (found at g_scan_end) contains no colon */
 __CPROVER_ensures(*off_out == off ==> __CPROVER_return_value == 0)
-/* otherwise pos is just behind the FIRST colon */
-__CPROVER_ensures(*off_out != off ==> (line[*off_out - 1] == ':' && (g_k < *off_out - 1 - off ==> v_k != ':')))
-/* a name is registered iff true is returned and a name set was supplied; it is not empty and does not start with a blank */
+__CPROVER_ensures(*off_out == off ==> (off <= g_scan_end && g_scan_end <= g_len && line[g_scan_end] == 0))
+__CPROVER_ensures((*off_out == off && g_k < g_scan_end - off) ==> (v_k != ':' && v_k != 0))
+/* otherwise pos is just behind the FIRST colon, and there is no terminator in front of it */
+__CPROVER_ensures(*off_out != off ==> (line[*off_out - 1] == ':' && (g_k < *off_out - 1 - off ==> (v_k != ':' && v_k != 0))))
+/* a name is registered iff true is returned and a name set was supplied; it does not start with a blank */
 __CPROVER_ensures(g_added == ((__CPROVER_return_value != 0 && have_names) ? 1 : 0))
-__CPROVER_ensures(g_added == 1 ==> (v_arg_0 != 0 && v_arg_0 != ' '))
+__CPROVER_ensures(g_added == 1 ==> v_arg_0 != ' ')
 ;
 void h_hasRowName(void) { char* line; int n, off, have_names; int* off_out; havoc_ghosts(); w_hasRowName(line, n, off, have_names, off_out); CANARY(); }
 #endif
